@@ -19,6 +19,7 @@ for line in open('/verif/tools/last_thorough_run.txt'):
     if m:
         th.append('| %s | %s | %s | %s s |' % m.groups())
 p1 = p1.replace('THOROUGHTABLE', '\n'.join(th))
+p1 = p1.replace('NSEEDS', str(len(glob.glob('/verif/seeded/*/meta.json'))))
 p1 = p1.replace('SEEDTABLE', table).replace('NFIX', nfix).replace('COSTTABLE', '\n'.join(rows))
 p2 = open('/verif/tools/design_part2.md').read()
 open('/verif/DESIGN.md', 'w').write(p1 + p2)
